@@ -109,15 +109,21 @@ func relayFull(w *sim.World, p *sim.Pkt, signer int) {
 	}
 }
 
-func addExtras(w *sim.World, ex Extras) extraState { return addExtrasWith(w, ex, nil) }
+func addExtras(w *sim.World, ex Extras) extraState { return addExtrasWith(w, ex, nil, false) }
 
 // addExtrasWith calls onRateLimit (if set) right after the block that committed the direct
 // AddRateLimit keeper call.
-func addExtrasWith(w *sim.World, ex Extras, onRateLimit func(*ratelimittypes.MsgAddRateLimit)) extraState {
+//
+// replayable: do not use ibctesting's process-global channel-id counter (a direct store
+// write outside any block) when opening the extra channels.
+func addExtrasWith(w *sim.World, ex Extras, onRateLimit func(*ratelimittypes.MsgAddRateLimit), replayable bool) extraState {
 	var st extraState
 	if ex.Transfer {
 		sim.Guard("transfer path", func() {
 			tp := ibctesting.NewTransferPath(w.Chains[0], w.Chains[1])
+			if replayable {
+				tp.DisableUniqueChannelIDs()
+			}
 			tp.Setup()
 			st.Xfer = addLink(w, sim.V1Unordered, tp, nil)
 			st.XferAlias = addLink(w, sim.V2Alias, tp, st.Xfer)
@@ -232,6 +238,9 @@ func addExtrasWith(w *sim.World, ex Extras, onRateLimit func(*ratelimittypes.Msg
 		var ip *ibctesting.Path
 		sim.Guard("ica connections", func() {
 			ip = ibctesting.NewPath(w.Chains[0], w.Chains[1])
+			if replayable {
+				ip.DisableUniqueChannelIDs()
+			}
 			ip.EndpointA.ChannelConfig.PortID = icatypes.HostPortID
 			ip.EndpointB.ChannelConfig.PortID = icatypes.HostPortID
 			ip.EndpointA.ChannelConfig.Order = channeltypes.ORDERED
